@@ -151,6 +151,7 @@ def dispatch (op : String) (args : List Sexp) : String :=
   | "lef.enum" => opLefEnum args
   | "lef.dbu" => opLefDbu args
   | "lef.parse" => LefP.opLefParse args
+  | "lef.wtokens" => LefP.opLefWTokens args
   | "lef.read" => "unsupported"
   | "lef.wr" => "unsupported"
   | "lef.crash" => "unsupported"
